@@ -33,4 +33,6 @@ def run_case(case):
         out.viols = [v for v in out.viols if v.rule.startswith(PREFIX) or v.rule == "unexpected-exception"]
     out.nontrivial = bool(stats["exit_with_cancellation_in_flight"] > 0 and (stats["absorbed"] > 0 or stats["propagated"] > 0))
     out.labels = [k for k, v in stats.items() if v] + ["config-" + case["config"]]
+    if case.get("pat"):
+        out.labels.append("pattern-" + case["pat"])
     return out
